@@ -665,7 +665,7 @@ def optional_record_guarded(tree, ob, rel, cls='Agent'):
                     ob.site(rel, n, '{} used under "is not None"'.format(t))
                 else:
                     ob.violate(rel, qual, '{} in {}'.format(t, src(n)[:50]), 'the key {!r} of this record starts at None and is used in arithmetic / ordering / attribute access without an '
-                               '"is not None" test on the way: the first event for a peer raises TypeError out of the handler (the datagram that carried it is dropped)'.format(s.slice.value), n, sure=True)
+                               '"is not None" test on the way: the first event for a peer raises TypeError out of the handler (the datagram that carried it is dropped)'.format(s.slice.value), n)
     if not uses:
         ob.site(rel, keys[sorted(keys)[0]], 'keys {} are never used in arithmetic, ordering or attribute access'.format(sorted(keys)))
 
@@ -708,7 +708,7 @@ def divisions_guarded(tree, ob, rels, audited=()):
                     ob.site(rel, node, 'division by {} under a test that excludes zero'.format(t))
                 else:
                     ob.violate(rel, qual, '{}  (divisor {})'.format(src(node)[:60], t), 'a division by a value that is zero for some input (here: a difference of acknowledged lengths the peer chooses) and is not tested first: '
-                               'ZeroDivisionError leaves the handler, the message that triggered it has no effect (no finished signal, the transfer stays in the send queue)', node, sure=True)
+                               'ZeroDivisionError leaves the handler, the message that triggered it has no effect (no finished signal, the transfer stays in the send queue)', node)
     return n
 
 
